@@ -237,7 +237,7 @@ theorem secondSmallest_eq_min_other (l : List α) (i : Nat) (hi : i < l.length)
 example : ∀ x ∈ [(3:ℚ), 0, 5, 0], ([(3:ℚ), 0, 5, 0])[1] ≤ x := by
   intro x hx
   simp at hx
-  rcases hx with rfl | rfl | rfl <;> norm_num
+  rcases hx with rfl | rfl | rfl | rfl <;> norm_num
 
 end C20
 end Pymoode
